@@ -126,6 +126,10 @@ type realisation struct {
 	lag bool
 	// pre is committed before the base block, so that the base block can delete and overwrite stored keys
 	pre *netWrites
+	// reopenEarly: reopen between the pre block and the base block (an account then enters the caches through the
+	// base block's writes only); readOthers: the block also reads accounts and keys it does not write
+	reopenEarly bool
+	readOthers  bool
 }
 
 func rootFor(base, w *netWrites, r *realisation) (string, error) {
@@ -155,6 +159,10 @@ func rootFor(base, w *netWrites, r *realisation) (string, error) {
 			return "", err
 		}
 		h++
+		if r.reopenEarly {
+			closeFn()
+			l, closeFn = open()
+		}
 	}
 	applyWrites(l, base.ops())
 	l.Finalise(true)
@@ -172,6 +180,16 @@ func rootFor(base, w *netWrites, r *realisation) (string, error) {
 	}
 	defer closeFn()
 	ops := w.ops()
+	readOthers := func() {
+		for a := range c13Addrs {
+			l.GetBalance(c13Addrs[a])
+			l.GetNonce(c13Addrs[a])
+			l.GetState(c13Addrs[a], []byte("never-written"))
+		}
+	}
+	if r.readOthers {
+		readOthers()
+	}
 	if r.readsBefore {
 		for _, o := range ops {
 			l.GetState(c13Addrs[o.a], []byte(o.key))
@@ -207,6 +225,9 @@ func rootFor(base, w *netWrites, r *realisation) (string, error) {
 		if r.txSplit > 0 && i+1 == r.txSplit {
 			l.Finalise(true)
 		}
+	}
+	if r.readOthers {
+		readOthers()
 	}
 	l.Finalise(true)
 	_, root2 := l.FlushDirtyData()
@@ -261,6 +282,8 @@ func drawRealisation(t *rapid.T, n int, label string) *realisation {
 	r.cache = rapid.SampledFrom([]int{0, 0, 1, 4}).Draw(t, label+"-cache")
 	r.lag = rapid.Bool().Draw(t, label+"-lag")
 	r.balAddSub = rapid.Bool().Draw(t, label+"-addsub")
+	r.reopenEarly = rapid.Bool().Draw(t, label+"-reopenEarly")
+	r.readOthers = rapid.Bool().Draw(t, label+"-readOthers")
 	if n > 1 {
 		r.txSplit = rapid.IntRange(0, n-1).Draw(t, label+"-split")
 	}
